@@ -2,6 +2,7 @@ package rules
 
 import (
 	"go/ast"
+	"go/constant"
 	"go/token"
 	"go/types"
 	"strings"
@@ -399,7 +400,31 @@ func c08Cleanup(c *core.Ctx) {
 				ok = ok && (g.Dominates(cln.Loc, r.Loc) || g.GuardedBy(r.Loc, concludeWon(false)))
 			}
 		}
-		c.Check(R, keyf("%s$%s/cleanup≺candidate.Close", sockUpgrade, ex.key), ex.unit.Pos(), ok, keyf("cleanup first, then Close on the candidate only (%d other closes)", bad))
+		// an open candidate is closed: a state test around the Close may skip a candidate that is not open, never one that is
+		candOpen := func(x *core.Unit, br core.Branch) int {
+			cmp, isCmp := x.BranchCmp(br)
+			if !isCmp || cmp.Val == nil || cmp.Val.Kind() != constant.String || constant.StringVal(cmp.Val) != "open" {
+				return 0
+			}
+			ce, _ := x.AsCall(cmp.X)
+			if ce == nil || calleeNameOf(ce) != "ReadyState" {
+				return 0
+			}
+			if se, isS := ce.Fun.(*ast.SelectorExpr); !isS || !isCandidate(x, se.X) {
+				return 0
+			}
+			switch cmp.Op {
+			case token.EQL:
+				return 1
+			case token.NEQ:
+				return -1
+			}
+			return 0
+		}
+		for _, cc := range closes {
+			ok = ok && !g.GuardedBy(cc.Loc, gNot(candOpen))
+		}
+		c.Check(R, keyf("%s$%s/cleanup≺candidate.Close", sockUpgrade, ex.key), ex.unit.Pos(), ok, keyf("cleanup first, then Close on the candidate only (%d other closes), and not on the edge where the candidate is not open", bad))
 	}
 	// onTransportClose and onClose delegate to onError
 	for _, name := range []string{"onTransportClose", "onClose"} {
